@@ -55,6 +55,7 @@ pub enum Ret {
     Data(Option<Vec<u8>>),
     Id(usize),
     Merge(Result<(), String>),
+    Script(Result<usize, String>),
 }
 
 /// Scratch directory for images (tmpfs if available), unique per process.
@@ -189,6 +190,7 @@ pub fn apply_real<const N: usize>(g: &mut Sodg<N>, op: &Op) -> Result<Ret, Strin
             let (h, right) = fixed_real::<N>(*k);
             Ret::Merge(g.merge(&h, *left, right).map_err(|e| format!("{e:#}")))
         }
+        Op::Script(k, a, b) => Ret::Script(sodg::Script::from_str(&crate::model::script_text(*k, *a, *b)).deploy_to(g).map_err(|e| format!("{e:#}"))),
         Op::MergeFail(k, left) => {
             let (mut h, right) = fixed_real::<N>(*k);
             let stray = fixed_tree(*k).size() + 1;
